@@ -542,10 +542,10 @@ fn ledger(h: &Hist, count: &[u32], out: &mut Vec<Violation>) {
         v(out, "DROP-GARBAGE", props, format!("{} destructor run(s) on memory that is not a live element (corrupt id / payload)", g));
     }
     if info.consuming {
-        let produced = if info.kind == "iter_owned" { PROBE.produced.load(Relaxed) as usize } else { info.len };
         for id in 0..info.len.min(MAX_IDS) {
             let d = DROPPED[id].load(Relaxed);
-            let expect = if id < produced { 1 } else { 0 };
+            // every element that exists (lazily created by an owning probe iterator) is destroyed exactly once
+            let expect = CREATED[id].load(Relaxed);
             if d != expect {
                 let what = if d > expect { "DROP-TWICE" } else { "DROP-NEVER" };
                 let deliv = if count[id] > 0 { "delivered to a caller" } else { "not delivered" };
